@@ -195,6 +195,10 @@ def rule_R22_bit_tests(ctx, rep, config="c-lib"):
         v = t.inst(strip_int_casts(t, r.ops[0]))
         if v is not None and v.op == "icmp":
             okr = True
+        elif v is not None and v.op == "select" and const_int(v.ops[1]) is not None and const_int(v.ops[2]) is not None:
+            okr = True      # cond ? 1 : 0
+        elif v is not None and v.op == "phi" and all(const_int(x) is not None for (x, _) in v.d["incoming"]):
+            okr = True      # the same through branches
     if n == 0:
         if okr:
             rep.ok("R22-bits", "term_set_test/truth-value", sample={"function": "term_set_test"})
